@@ -401,7 +401,11 @@ def register(S):
     @S.on("<core::option::Option<T> as core::clone::Clone>::clone", "<alloc::vec::Vec<T, A> as core::clone::Clone>::clone",
           "<alloc::string::String as core::clone::Clone>::clone")
     def generic_clone(ctx):
-        return ctx.ret(ctx.deref(ctx.args[0]))
+        a = ctx.args[0]
+        if isinstance(a, RefVal):
+            v = ctx.ip.read_loc(ctx.st, a.loc)
+            return ctx.ret(v)
+        return ctx.ret(a)
 
     @S.pat(r"^core::cmp::impls::<impl core::cmp::PartialEq for (u|i)\w+>::(eq|ne)$")
     def prim_eq(ctx):
@@ -426,6 +430,18 @@ def register(S):
         if rty and rty.get("k") == "float":
             return ctx.ret(FloatVal(rty["bits"], const=0.0, term=("const", "0.0")))
         return NotImplemented
+
+    @S.pat(r"^core::array::<impl core::default::Default for \[T; .*\]>::default$")
+    def array_default(ctx):
+        rty = ctx.ret_ty()
+        if rty and rty.get("k") == "array" and rty.get("len") is not None:
+            et = rty["elem"]
+            if et.get("k") == "adt" and et["path"] == OPTION:
+                return ctx.ret(ArrayVal([NONE] * rty["len"], rty["len"], et))
+            t = ty_of_json(et)
+            if t is not None:
+                return ctx.ret(ArrayVal([IntVal.const(t, 0)] * rty["len"], rty["len"], et))
+        return ctx.ret(ctx.top_ret())
 
     @S.on("<core::option::Option<T> as core::default::Default>::default")
     def option_default(ctx):
@@ -540,6 +556,106 @@ def register(S):
         if isinstance(n, IntVal) and n.is_const() and n.cval() <= 4096:
             return ctx.ret(Opaque.make("vec", elems=tuple([e] * n.cval()), n=n.cval(), summary=None))
         return ctx.ret(Opaque.make("vec", elems=None, n=n, summary=e))
+
+    @S.on("alloc::boxed::Box::<T>::new_uninit", "alloc::boxed::Box::<T>::new")
+    def box_new(ctx):
+        loc = ctx.st.new_heap(ctx.args[0] if ctx.args else None)
+        return ctx.ret(Opaque.make("box", loc=loc))
+
+    @S.on("alloc::boxed::box_assume_init_into_vec_unsafe", "alloc::slice::<impl [T]>::into_vec")
+    def box_into_vec(ctx):
+        b = ctx.args[0]
+        if isinstance(b, Opaque) and b.kind == "box":
+            v = ctx.ip.read_loc(ctx.st, b.get("loc"))
+
+            def dig(x, depth=0):
+                if isinstance(x, ArrayVal):
+                    return x
+                if isinstance(x, (TupleVal, AdtVal)) and depth < 6:
+                    for f in x.fields:
+                        r = dig(f, depth + 1)
+                        if r is not None:
+                            return r
+                return None
+            arr = dig(v)
+            if arr is not None and arr.elems is not None:
+                ctx.ip.event(ctx.st, "alloc", size=IntVal.const(USIZE, len(arr.elems)), fn=ctx.fr.fn["path"], callee="vec![..]", span=ctx.call.get("span"))
+                return ctx.ret(Opaque.make("vec", elems=tuple(arr.elems), n=len(arr.elems), summary=None))
+        return ctx.ret(Opaque.make("vec", elems=None, n=IntVal(USIZE, 0, 1 << 40), summary=None))
+
+    @S.on("core::cmp::PartialEq::ne")
+    def default_ne(ctx):
+        a, b = ctx.args
+        va = ctx.deref(a)
+        dest, target = ctx.dest, ctx.target
+        if isinstance(va, AdtVal):
+            fn = None
+            for f in ctx.ip.prog.fns.values():
+                im = f.get("impl")
+                if f.get("name") == "eq" and im and im.get("trait_def") == "core::cmp::PartialEq" and im["self_ty"].get("k") == "adt" and im["self_ty"]["path"] == va.path:
+                    fn = f
+                    break
+            if fn is not None:
+                def done(ip, st, rv):
+                    return ip.finish_call(st, dest, target, ip.unop(st, "Not", rv) if isinstance(rv, IntVal) else IntVal.top(BOOL))
+                ctx.ip.call_fn(ctx.st, fn, [a, b], on_return=done)
+                return None
+        return ctx.ret(IntVal.top(BOOL, deps=deps_of(va)))
+
+    @S.pat(r"^core::cmp::impls::<impl core::cmp::PartialEq<&B> for &A>::(eq|ne)$")
+    def ref_eq(ctx):
+        a, b = ctx.deref(ctx.args[0]), ctx.deref(ctx.args[1])
+        neg = ctx.path.endswith("ne")
+        va, vb = ctx.deref(a), ctx.deref(b)
+        dest, target = ctx.dest, ctx.target
+        if isinstance(va, IntVal) and isinstance(vb, IntVal):
+            return ctx.ret(ctx.ip.binop(ctx.st, "Ne" if neg else "Eq", va, vb))
+        if isinstance(va, AdtVal) and isinstance(a, RefVal) and isinstance(b, RefVal):
+            for f in ctx.ip.prog.fns.values():
+                im = f.get("impl")
+                if f.get("name") == "eq" and im and im.get("trait_def") == "core::cmp::PartialEq" and im["self_ty"].get("k") == "adt" and im["self_ty"]["path"] == va.path:
+                    def done(ip, st, rv):
+                        if neg and isinstance(rv, IntVal):
+                            rv = ip.unop(st, "Not", rv)
+                        return ip.finish_call(st, dest, target, rv)
+                    ctx.ip.call_fn(ctx.st, f, [a, b], on_return=done)
+                    return None
+        return ctx.ret(IntVal.top(BOOL, deps=deps_of(va) | deps_of(vb)))
+
+    @S.pat(r"^<core::option::Option<T> as core::cmp::PartialEq>::(eq|ne)$|^core::array::equality::<impl core::cmp::PartialEq<\[U; N\]> for \[T; N\]>::(eq|ne)$|^<std::time::SystemTime as core::cmp::PartialEq>::(eq|ne)$|^<f(32|64) as core::cmp::PartialEq>::(eq|ne)$|^<alloc::string::String as core::cmp::PartialEq>::(eq|ne)$|^<alloc::vec::Vec<T, A1> as core::cmp::PartialEq<alloc::vec::Vec<U, A2>>>::(eq|ne)$")
+    def opaque_eq(ctx):
+        a, b = ctx.deref(ctx.args[0]), ctx.deref(ctx.args[1])
+        tags = frozenset()
+        for x in (a, b):
+            tags |= _all_tags(x)
+        if fp(a) == fp(b) and not tags and _is_exact(a):
+            return ctx.ret(IntVal.const(BOOL, 0 if ctx.path.endswith("ne") else 1))
+        r = IntVal.top(BOOL, deps=deps_of(a) | deps_of(b), tags=tags | frozenset([("eq_of", ctx.path.split(" as ")[0].lstrip("<"))]))
+        return ctx.ret(r)
+
+    def _all_tags(x):
+        t = getattr(x, "tags", frozenset()) or frozenset()
+        if isinstance(x, (AdtVal, TupleVal)):
+            for f in x.fields:
+                t |= _all_tags(f)
+        elif isinstance(x, ArrayVal) and x.elems:
+            for f in x.elems:
+                t |= _all_tags(f)
+        elif isinstance(x, Choice):
+            for _d, v in x.alts:
+                t |= _all_tags(v)
+        return t
+
+    def _is_exact(x):
+        if isinstance(x, IntVal):
+            return x.is_const()
+        if isinstance(x, (AdtVal, TupleVal)):
+            return all(_is_exact(f) for f in x.fields)
+        if isinstance(x, ArrayVal):
+            return x.elems is not None and all(_is_exact(f) for f in x.elems)
+        return False
+
+    S.all_tags = _all_tags
 
     @S.on("alloc::vec::Vec::<T, A>::push")
     def vec_push(ctx):
